@@ -18,6 +18,8 @@ CLAIMED = {
          "raise-sets of stdlib decoders are assumed contracts (stubs/stdlib.py: str(), json, struct, base64, pickle = any Exception); JSON raw framing, file-based and compressor framings are assumed/bounded; termination of the one-shot path is by construction (no loop)"),
  "C14": ("§4 C14", "On every exit path - normal, failing, and CancelledError delivered at any suspension point - of aclose_forcefully, the stapled close helper, AsyncTLSStreamTransport.aclose/wrap, the three stream endpoints, the datagram endpoint, the low-level server client, the high-level server-side client and the async TCP/UDP clients, the wrapped transport's close has been requested (ghost close_requested); both halves of a stapled transport are closed even if the first close fails.",
          "abstract transport aclose() requests the close on entry (assumed); cancellation only at suspension points of the backend models; cancel scopes swallow only their own body's CancelledError; lock/guard coupling is a rely invariant; the asyncio socket adapter's aclose and promptness of a second close are not covered; KNOWN FINDING F7 (three call sites) is reported, not repaired"),
+ "C19": ("§4 C19", "Socket ownership: every exit of _create_connection_impl (normal, all attempts failed, cancelled at the await, unexpected BaseException from socket()/bind()/setblocking()) leaves exactly the returned socket open (loop invariants on the count of open sockets); try_connect hands its socket over as the winner or closes it, under the rely condition that concurrent attempts only set a winner they own, and signals completion on every exit.",
+         "socket()/bind()/setblocking()/close() follow the RawSocket model; connect_socket (abstract) creates/closes nothing; except* is encoded conservatively; the outer _staggered_race_connection_impl (task group, addrinfo interleaving) is NOT under contract: that the task group joins its children and the final winner.close() on failure are assumed"),
  "C11": ("§4 C11", "SelectorBaseTransport._retry is proved to keep a two-sided budget invariant (blocked time + remaining budget <= T, remaining budget >= T - elapsed), never to call select with a zero budget, to raise TimeoutError only after the whole budget elapsed and with a finite budget; send_all, the sendmsg loop and both receive loops carry the returned budget across iterations.",
          "floats as extended reals (NaN excluded); select(w) blocks at most w and reports not-ready only after w; perf_counter non-decreasing; lock_with_timeout and the clients' lock waits are not yet under contract"),
  "C07": ("§4 C07", "Yield invariants bound the held bytes by limit + |sep| - 1 (copy path) and the buffer size by the limit (buffered path); acceptance clauses (first occurrence <= limit never raises).",
